@@ -253,6 +253,8 @@ class World:
         sp = op.get("spell", "pos")
         if sp == "kw":
             params = c.parameters
+            if len(args) > len(params):
+                return c(*args)        # surplus arguments: let modelx refuse them as it does positionally
             return c(**dict(zip(params, args)))
         if sp == "idx":
             return c[tuple(args) if len(args) != 1 else args[0]]
